@@ -34,6 +34,25 @@ next to left-over sort keys (`explicit+sort-keys`), optionally with an `elements
 an order on the opposing dimension in the same transforms.  All three legs run on them: model `shim_xf`
 vs the dict the dimension uses, model `consume` vs displayed order (by the order type in force), alias
 spelling vs re-spelled variants.  Recorded in the distribution as `leftover:*` / `dt-relational:slot=*`.
+
+Alias-less arrays (added for seeded change C19-9: the late translation of an opposing-element reference
+in matrix/assembler.py became `translate_element_id(ref) or ref`, so a SUCCESSFUL translation to a falsy id
+- the element id 0 - was discarded, the untranslated spelling matched nothing and the sort fell back to
+payload order).  The generator gave (almost) every item an alias, so the translated id of an item was a
+non-empty string; the property quantifies over all array dimensions, and zz9 sends the subvariables of
+scorecard / fused-variables dimensions WITHOUT aliases (tests/fixtures/scorecard.json): the translated id is
+then the numeric element id itself, 0 included.  Class added (`gen_aliasless_case` / `aliasless_dims` /
+`aliasless_jobs`, own random stream `seed + 23`): arrays with no item alias at all, as rows and as columns of
+a slice, as a strand and in the 3-D table, element ids zero-based / one-based / zero-based shuffled / sparse
+with 0, sub-variable ids "0001".. / "0000".. / names / absent (CA); every item x every spelling the model
+resolves to it (int id, str id, sub-variable id, zero-padded digits, position) x every slot (hide, rename,
+explicit, fixed top / bottom, the left-over dicts, sort by the opposing item descending AND ascending - one
+of the two differs from payload order), base = the int element id.  New oracle leg of the correspondence
+(`opposing_absolute_fail`, on every opposing-element job of every stream): when the model's `opp_index`
+resolves the reference to item i, the other dimension must be displayed in an order monotone in the measure
+of item i as the sorted partition reports it (ties free) - the stale fallback used to be the only absolute
+statement about this slot.  Recorded in the distribution as `aliasless:*`,
+`checked:opposing-sorted-by-the-resolved-item` and in `coverage.aliasless_scope`.
 """
 import copy
 import json
@@ -280,6 +299,8 @@ def build_transforms(case, slots):
             o["order"] = {"type": typ, "element_id": x, "measure": measure}
         else:
             o["order"] = {"type": typ, "insertion_id": x, "measure": measure}
+        if slots.get("opposing_direction"):
+            o["order"]["direction"] = slots["opposing_direction"]
     if a:
         tr[case["akey"]] = a
     if o:
@@ -386,6 +407,8 @@ def spell(slots, respell=None):
     out = {}
     if "leftover" in slots:
         out["leftover"] = slots["leftover"]
+    if "opposing_direction" in slots:
+        out["opposing_direction"] = slots["opposing_direction"]
     if "elements" in slots:
         e = {}
         used = set()
@@ -413,7 +436,95 @@ def spell(slots, respell=None):
 
 
 def slot_names(slots):
-    return sorted(s for s in slots if s not in ("keymode", "leftover"))
+    return sorted(s for s in slots if s not in ("keymode", "leftover", "opposing_direction"))
+
+
+# ------------------------------------------------------------------------------------
+# alias-less arrays (scorecard / fused-variables shape)
+# ------------------------------------------------------------------------------------
+
+ALIASLESS_LAYOUTS = ["mr_x_cat", "cat_x_mr", "ca", "mr", "cat_x_ca"]
+ALIASLESS_IDS = ["zero", "zero", "one", "zero-shuffled", "sparse0"]
+ALIASLESS_SVIDS = ["pad4", "pad4", "pad4zero", "names", "absent"]
+
+
+def gen_aliasless_case(rng, k, layout, n_items, ids, svids):
+    """A cube whose array dimension carries NO item aliases (value.references has only a name, as zz9
+    sends the subvariables of scorecard / fused-variables dimensions, tests/fixtures/scorecard.json):
+    the item's id after translation is then its numeric element id - an int, with zero-based ids the
+    falsy 0.  The opposing categorical dimension gets 3-4 categories and enough respondents for a sort by
+    an opposing item to differ from payload order."""
+    kind = "ca" if layout in ("ca", "cat_x_ca") else "mr"
+    n = n_items
+    if ids == "zero":
+        eids = list(range(n))
+    elif ids == "one":
+        eids = list(range(1, n + 1))
+    elif ids == "zero-shuffled":
+        eids = list(range(n))
+        rng.shuffle(eids)
+    else:                       # sparse, id 0 among them (anywhere)
+        eids = [0] + rng.sample(range(2, 3 * n + 4), n - 1)
+        rng.shuffle(eids)
+    items = []
+    for j in range(n):
+        sv = {"pad4": "%04d" % (j + 1), "pad4zero": "%04d" % j, "names": "sv_%d" % j,
+              "absent": "%04d" % (j + 1)}[svids]
+        items.append({"id": eids[j], "subvar_id": sv, "alias": "m_i%d" % j, "name": "Item %s" % "ABCDEFGH"[j],
+                      "missing": False})
+    if kind == "mr":
+        v = gen.Var(kind="mr", alias="m", name="M", items=items)
+    else:
+        c0 = gen.make_cat(rng, "m", n_valid=rng.randint(3, 4), n_missing=rng.choice([0, 1]))
+        v = gen.Var(kind="ca", alias="m", name="M", items=items, cats=c0.cats)
+    cat = gen.make_cat(rng, "c", n_valid=rng.randint(3, 4), n_missing=rng.choice([0, 0, 1]))
+    variables, aliases = {"mr_x_cat": ([v, cat], ["m", "c"]), "cat_x_mr": ([cat, v], ["c", "m"]),
+                          "ca": ([v], ["m"]), "mr": ([v], ["m"]),
+                          "cat_x_ca": ([cat, v], ["c", "m"])}[layout]
+    sv = gen.Survey(variables, rng.randint(30, 60), rng)
+    resp = gen.cube_response(sv, aliases)
+    dims = resp["result"]["dimensions"]
+    raw_idx = 1 if layout in ("cat_x_mr", "cat_x_ca") else 0
+    # strip every alias of an item: elements and subreferences, of both halves of the array
+    for dd in dims[raw_idx:raw_idx + 2]:
+        for sr in (dd.get("references") or {}).get("subreferences") or []:
+            sr.pop("alias", None)
+    for el in dims[raw_idx]["type"]["elements"]:
+        el["value"]["references"].pop("alias", None)
+        if svids == "absent" and kind == "ca":
+            el["value"].pop("id", None)         # no sub-variable ids either (CA only: MR needs them)
+    d = U.adim_of_dimension_dict(dims[raw_idx], kind == "mr")
+    akey = "columns_dimension" if layout == "cat_x_mr" else "rows_dimension"
+    okey = {"mr_x_cat": "columns_dimension", "cat_x_mr": "rows_dimension",
+            "ca": "columns_dimension", "mr": None, "cat_x_ca": "columns_dimension"}[layout]
+    return {"k": k, "layout": layout, "response": resp, "adim": d, "cube_dim": raw_idx, "akey": akey,
+            "okey": okey, "values": "counts", "kind": kind, "aliasless": ids, "aliasless_svids": svids}
+
+
+def aliasless_dims(rng, quick):
+    """Every layout (rows / columns of a slice, a strand, the 3-D table) x id scheme; 2-3 items (quick)."""
+    out = []
+    k = 200000
+    for layout in ALIASLESS_LAYOUTS:
+        for ids in (ALIASLESS_IDS if quick else ALIASLESS_IDS * 3):
+            n = rng.randint(2, 3) if quick else rng.randint(1, 5)
+            if ids == "sparse0":
+                n = max(n, 2)
+            case = gen_aliasless_case(rng, k, layout, n, ids, rng.choice(ALIASLESS_SVIDS))
+            k += 1
+            out.append((case, aliasless_jobs))
+    return out
+
+
+def aliasless_jobs(case):
+    """every item x every model-equivalent spelling x every slot (the exhaustive slots, the sort by the
+    opposing item in BOTH directions), against the element-id spelling (int) - the id of the item after
+    translation when it has no alias"""
+    for slots, base, variants in exhaustive_jobs(case):
+        yield slots, base, variants
+        if "opposing" in slots:
+            slots2 = dict(slots, opposing_direction="ascending")
+            yield slots2, spell(slots2), [dict(v, opposing_direction="ascending") for v in variants]
 
 
 # ------------------------------------------------------------------------------------
@@ -499,7 +610,10 @@ def run(tier, seed):
     cases = [gen_dim_case(rng, k) for k in range(n_cases)]
     exhaustive = exhaustive_dims(random.Random(seed + 17), 2 if not thorough else 4)
     ex_cases = [c for c, _ in exhaustive]
-    all_cases = cases + ex_cases
+    # alias-less arrays (scorecard / fused-variables shape), own random stream
+    aliasless = aliasless_dims(random.Random(seed + 23), not thorough)
+    al_cases = [c for c, _ in aliasless]
+    all_cases = cases + ex_cases + al_cases
 
     # ---- phase 1: the cascade itself -------------------------------------------------
     terms, index = [], []
@@ -569,6 +683,13 @@ def run(tier, seed):
         rep.dist("mr_ins" if d["mr_ins"] else "no-mr-ins")
         if any(it["ins"] for it in d["items"]):
             rep.dist("has-derived-items")
+        if case.get("aliasless"):
+            rep.dist("aliasless:ids=%s" % case["aliasless"])
+            rep.dist("aliasless:layout=%s" % case["layout"])
+            rep.dist("aliasless:subvar-ids=%s" % case["aliasless_svids"])
+            zero = [k for k, it in enumerate(d["items"]) if it["eid"] == 0]
+            if zero:
+                rep.dist("aliasless:spellings-of-the-id-0-item=%d" % len(case["eq"][zero[0]]))
 
     # ---- phase 2: transforms, model of the rewriting ---------------------------------
     rng2 = random.Random(seed + 1)
@@ -607,12 +728,12 @@ def run(tier, seed):
                 variants.append(v)
         jobs.append({"case": case, "slots": slots, "base": base, "variants": variants,
                      "malformed": False, "exhaustive": False})
-    for case, exjobs in exhaustive:
+    for case, exjobs in exhaustive + aliasless:
         if case.get("dead"):
             continue
         for slots, base, variants in exjobs(case):
             jobs.append({"case": case, "slots": slots, "base": base, "variants": variants,
-                         "malformed": False, "exhaustive": True})
+                         "malformed": False, "exhaustive": not case.get("aliasless")})
     terms = []
     for job in jobs:
         case = job["case"]
@@ -660,7 +781,7 @@ def run(tier, seed):
         "top/bottom under label sort, sort by opposing element / opposing derived insertion; left-over "
         "dicts on ~45% of the dimensions (one order dict with element_ids AND fixed lists under type "
         "explicit / label, explicit ids next to sort keys, +- elements dict, insertions, opposing order; "
-        "base = alias spelling, 2-3 re-spelled variants); ~15% stale "
+        "base = alias spelling, 2-3 re-spelled variants); alias-less arrays (see aliasless_scope); ~15% stale "
         "and ~10% malformed cases (None, '', '1x', '+1'); non-trivial = a case with >= 1 reference "
         "re-spelled by a non-alias spelling or a translate battery with >= 1 non-alias hit; distinct by "
         "content hash")
@@ -672,6 +793,17 @@ def run(tier, seed):
                  "left-over dicts explicit+fixed, sort+element_ids, elements+order+insertions}"
                  % (2 if not thorough else 4),
         "jobs": sum(1 for j in jobs if j["exhaustive"])}
+    rep.cov["aliasless_scope"] = {
+        "scope": "arrays WITHOUT item aliases (scorecard / fused-variables shape: the translated id of an item "
+                 "is its element id, an int, 0 included): layouts %s x element ids %s x sub-variable ids %s; "
+                 "every item x every spelling the model resolves to it (int id, str id, sub-variable id, "
+                 "zero-padded digits, position) x slots {hide, rename, explicit, fixed top / bottom, the left-over "
+                 "dicts, sort by the opposing item descending AND ascending}; the sort by an opposing item is "
+                 "additionally checked absolutely (the sorted dimension is monotone in the measure of the item "
+                 "the model resolves the reference to)" % (ALIASLESS_LAYOUTS, sorted(set(ALIASLESS_IDS)),
+                                                          sorted(set(ALIASLESS_SVIDS))),
+        "dimensions": len(al_cases),
+        "jobs": sum(1 for j in jobs if j["case"].get("aliasless"))}
     rep.cov["datetime"] = dt_stats
     rep.assumptions = [
         "identifiers are int / str (printable ASCII) / None; bool and float ids are outside the model",
@@ -784,6 +916,23 @@ def check_job(rep, job):
                     rep.violation("impl-vs-model", rcase, {"what": "stale opposing element must fall "
                                   "back to payload order", "impl": out.get(o_read), "payload": pout.get(o_read)},
                                   {"what": "opposing-stale", "cause": cause})
+            elif mo[0] == "ok" and job["base"]["opposing"][0] == "opposing_element" \
+                    and not any(it["derived"] or it["ins"] for it in d["items"]):
+                # the model resolves the reference to item mo[1] (offset among the valid items): the
+                # opposing dimension must then be sorted by THAT item's measure, whatever the spelling
+                bad = opposing_absolute_fail(case, tr, mo[1])
+                if bad is not None and bad.get("skipped"):
+                    rep.dist("skipped:opposing-absolute:" + bad["skipped"])
+                elif bad is not None:
+                    rep.violation("impl-vs-model", dict(replayable(case, tr), kind="opposing-absolute",
+                                                        opp_item=mo[1]),
+                                  dict(bad, reference=(tr.get(case["okey"]) or {}).get("order", {}).get("element_id"),
+                                       model_item=mo[1]),
+                                  {"what": "opposing-absolute", "cause": cause})
+                else:
+                    rep.dist("checked:opposing-sorted-by-the-resolved-item")
+                    if case.get("aliasless"):
+                        rep.dist("aliasless:checked:opposing-sorted-by-the-resolved-item")
     # (d) relational oracle: all spellings give identical outputs and identical rewritten dicts
     base_out, base_used = outs[0]
     if any(v[0] == "exc" for v in base_out.values()):
@@ -827,6 +976,51 @@ def check_job(rep, job):
         rep.dist("malformed-stream")
     rep.sample({"layout": case["layout"], "transforms": trs[0],
                 "respelled": trs[1] if len(trs) > 1 else None}, limit=3)
+
+
+def opposing_absolute_fail(case, tr, item):
+    """Absolute oracle of the sort-by-opposing-element slot: `item` = offset (among the valid items of the
+    array dimension) of the item the model resolves the reference to.  The other dimension must be displayed
+    in an order that is monotone (by the direction of the order dict, descending by default) in the measure
+    of that item, read from the sorted partition itself - ties are free, so no tie rule is assumed.
+    -> None (holds) | {"skipped": why} | description of the failure."""
+    okey, akey = case["okey"], case["akey"]
+    order = (tr.get(okey) or {}).get("order") or {}
+    descending = order.get("direction", "descending") != "ascending"
+    resp, t = copy.deepcopy(case["response"]), copy.deepcopy(tr)
+    r = impl.guarded(lambda: impl.Cube(resp, transforms=t).partitions[0])
+    if r[0] != "ok":
+        return {"skipped": "partition-raises"}
+    part = r[1]
+    a_axis, o_axis = ("column", "row") if akey == "columns_dimension" else ("row", "column")
+    meas = "means" if case["values"] == "means" else (
+        "column_proportions" if okey == "rows_dimension" else "row_proportions")
+    a_order, o_order, m = (impl.get(part, a_axis + "_order"), impl.get(part, o_axis + "_order"),
+                           impl.get(part, meas))
+    if a_order[0] != "ok" or o_order[0] != "ok" or m[0] != "ok":
+        return {"skipped": "read-raises"}
+    a_order, o_order = [int(x) for x in a_order[1]], [int(x) for x in o_order[1]]
+    if item not in a_order:
+        return {"skipped": "item-not-displayed"}
+    if any(x < 0 for x in o_order):
+        return {"skipped": "insertions-in-sorted-dimension"}
+    m = np.asarray(m[1], dtype=float)
+    if m.ndim != 2:
+        return {"skipped": "not-2d"}
+    j = a_order.index(item)
+    vec = [float(x) for x in (m[:, j] if a_axis == "column" else m[j, :])]
+    if any(x != x for x in vec):
+        return {"skipped": "nan-in-sort-vector"}
+    for p in range(len(vec) - 1):
+        a, b = (vec[p], vec[p + 1]) if descending else (vec[p + 1], vec[p])
+        if a < b - 1e-9 * max(1.0, abs(a), abs(b)):
+            return {"what": "the dimension sorted by an opposing item is not in the order of that item's "
+                            "measure", "measure": meas, "direction": "descending" if descending else "ascending",
+                    "values_of_the_item_in_display_order": vec, "display_order": o_order,
+                    "item_displayed_at": j}
+    if len(set(vec)) < 2:
+        return {"skipped": "constant-sort-vector"}
+    return None
 
 
 def all_refs(slots):
@@ -1219,6 +1413,10 @@ def replay(path):
         bad = dt_absolute_fail(out, case["akey"], case.get("check"))
         if bad is not None:
             fails.append(("reference-acts-on-wrong-element", bad))
+    elif kind == "opposing-absolute":
+        bad = opposing_absolute_fail(case, case["transforms"], case["opp_item"])
+        if bad is not None and not bad.get("skipped"):
+            fails.append(("opposing-absolute", bad))
     elif kind == "translate":
         dim = impl_dim(case)
         got = impl_translate(dim, case.get("ident"))
